@@ -40,19 +40,20 @@ type request struct {
 }
 
 type roundReport struct {
-	JitterHits  int64
-	PlayHazards int
-	Pattern     string   `json:"pattern"`
-	Round       int      `json:"round"`
-	Events      string   `json:"events"` // interleaving signature: order of call/return events
-	Results     []string `json:"results"`
-	Problems    []string `json:"problems"` // "sig ## detail"
-	Hung        bool     `json:"hung"`
-	Overlap     int      `json:"overlapping_conflicts"`
-	Contention  int      `json:"contention_refusals"`
-	Admitted    int      `json:"admitted"`
-	Refused     int      `json:"refused"`
-	Porcupine   string   `json:"porcupine"`
+	JitterHits       int64
+	PlayHazards      int
+	Pattern          string   `json:"pattern"`
+	Round            int      `json:"round"`
+	Events           string   `json:"events"` // interleaving signature: order of call/return events
+	Results          []string `json:"results"`
+	Problems         []string `json:"problems"` // "sig ## detail"
+	Hung             bool     `json:"hung"`
+	Overlap          int      `json:"overlapping_conflicts"`
+	Contention       int      `json:"contention_refusals"`
+	Admitted         int      `json:"admitted"`
+	Refused          int      `json:"refused"`
+	Porcupine        string   `json:"porcupine"`
+	QuiescentRetries int      `json:"quiescent_retries"`
 }
 
 type roundsResult struct {
@@ -451,6 +452,23 @@ func oneRound(rng *rand.Rand, pattern string, idx int) (rep roundReport) {
 				problem(p.Sig, "%s", p.Detail)
 			}
 			break
+		}
+	}
+	// (e) at quiescence no key lock is held: the lock-contention refusal is only possible while
+	// another admission is in flight. Every transaction of the round is offered again, one at a
+	// time (admitted ones are refused as known, conflicting ones for their spent inputs / stale
+	// versions): a contention refusal now means a finished request left a lock behind.
+	if len(rep.Problems) == 0 {
+		s.N.WaitQuiescent()
+		for i, rq := range reqs {
+			if rq.Kind != "dotx" || rq.Tx == nil {
+				continue
+			}
+			rep.QuiescentRetries++
+			if err := s.N.State.DoTx(sn.CloneTx(rq.Tx)); err != nil && err.Error() == "utxo can not be spent more than once" {
+				problem("serial|contention-refusal-at-quiescence", "request %d (%s), offered again after every request of the round had returned, is refused for lock contention: a finished request left a key lock behind", i, rq.Label)
+				break
+			}
 		}
 	}
 	return
